@@ -246,6 +246,7 @@ def run(rep):
                 rep.violation('c10inf:' + c, 'endless structure crashed the evaluator: ' + a[:120], {'src': c, 'max_stack': 300, 'impl': a[:200]})
             else:
                 rep.bump('inf:' + classify(a))
+    import_cycles(rep, rng, quick)
     # native stack: deep evaluation with a huge limit must not abort
     big = 20000 if quick else 200000
     deep = [
@@ -264,9 +265,81 @@ def run(rep):
                           {'src': s, 'max_stack': 10 * big, 'impl': a})
 
 
+def import_cycles(rep, rng, quick):
+    """A file that depends on itself through imports is a value that depends on itself, however the import
+    paths are spelled (./, ../, sub-directories, symbolic links, -J): the real binary must report infinite
+    recursion under every limit larger than the cycle (and stack overflow or infinite recursion under a smaller one)."""
+    import os
+    import shutil
+    import subprocess
+    vlib.build_cli()
+    base = os.path.join(vlib.TMP, 'c10_cyc_%d' % os.getpid())
+    SPELL = ['{n}', './{n}', 'sub/../{n}', '../{top}/{n}', 'sub/./../{n}', 'link/{n}', '{abs}/{n}', 'sub/../sub/../{n}']
+    for case in range(12 if quick else 120):
+        shutil.rmtree(base, ignore_errors=True)
+        top = os.path.join(base, 'top')
+        os.makedirs(os.path.join(top, 'sub'))
+        os.symlink('.', os.path.join(top, 'link'))
+        k = rng.choice([1, 2, 3, 4])
+        files = ['f%d.jsonnet' % i for i in range(k)]
+        spells = []
+        for i in range(k):
+            nxt = files[(i + 1) % k]
+            sp = rng.choice(SPELL).format(n=nxt, top='top', abs=top)
+            spells.append(sp)
+            # every form NEEDS the imported value (a lazy use such as `[import "f"]` is an endless structure, not a cycle)
+            form = rng.choice(['(import "%s") + 1', 'local x = import "%s"; x + 1', '{a: import "%s"}.a', 'std.length(import "%s")',
+                               'if (import "%s") == 1 then 1 else 2'])
+            with open(os.path.join(top, files[i]), 'w') as f:
+                f.write(form % sp)
+        for limit in (500, 37, 5000):
+            for how in ('abs', 'rel'):
+                arg = os.path.join(top, files[0]) if how == 'abs' else files[0]
+                try:
+                    p = subprocess.run([vlib.CLI_BIN, '--max-stack', str(limit), arg], cwd=top, stdout=subprocess.PIPE,
+                                       stderr=subprocess.PIPE, timeout=120, env=dict(os.environ, NO_COLOR='1'))
+                    rc, err = p.returncode, p.stderr.decode('utf-8', 'replace')
+                except subprocess.TimeoutExpired:
+                    rc, err = 'timeout', ''
+                key = 'c10cyc:%s|%d|%s' % ('>'.join(spells), limit, how)
+                rep.count(key, any('..' in sp or 'link' in sp for sp in spells))
+                first = err.strip().splitlines()[0] if err.strip() else ''
+                ok = rc == 1 and 'infinite recursion' in first
+                rep.bump('import-cycle:' + ('IR' if ok else ('SO' if 'stack overflow' in first else 'other')))
+                if not ok:
+                    rep.violation(key, 'import cycle of %d file(s) spelled %s under limit %d answered rc=%s %s (expected infinite recursion)'
+                                  % (k, spells, limit, rc, first[:100]),
+                                  {'import_cycle': {'spells': spells, 'forms': [open(os.path.join(top, f)).read() for f in files],
+                                                    'limit': limit, 'how': how}, 'stderr': err[:400]})
+    shutil.rmtree(base, ignore_errors=True)
+
+
+def replay_import_cycle(ic):
+    import os
+    import shutil
+    import subprocess
+    vlib.build_cli()
+    base = os.path.join(vlib.TMP, 'c10_cyc_replay_%d' % os.getpid())
+    shutil.rmtree(base, ignore_errors=True)
+    top = os.path.join(base, 'top')
+    os.makedirs(os.path.join(top, 'sub'))
+    os.symlink('.', os.path.join(top, 'link'))
+    for i, body in enumerate(ic['forms']):
+        open(os.path.join(top, 'f%d.jsonnet' % i), 'w').write(body.replace(ic.get('abs', '\0'), top))
+    arg = os.path.join(top, 'f0.jsonnet') if ic['how'] == 'abs' else 'f0.jsonnet'
+    p = subprocess.run([vlib.CLI_BIN, '--max-stack', str(ic['limit']), arg], cwd=top, stdout=subprocess.PIPE, stderr=subprocess.PIPE,
+                       timeout=120, env=dict(os.environ, NO_COLOR='1'))
+    err = p.stderr.decode('utf-8', 'replace')
+    print('rc', p.returncode, err.strip().splitlines()[:1])
+    shutil.rmtree(base, ignore_errors=True)
+    return 0 if (p.returncode == 1 and 'infinite recursion' in err.splitlines()[0]) else 1
+
+
 def replay(r):
-    vlib.build_harness()
     rp = r['replay']
+    if 'import_cycle' in rp:
+        return replay_import_cycle(rp['import_cycle'])
+    vlib.build_harness()
     a = C.canon_impl(vlib.impl([vlib.eval_line(rp['src'], max_stack=rp.get('max_stack', 500))])[0])
     print('impl :', a)
     if 'sexp' in rp:
